@@ -170,22 +170,26 @@ where
             let offset = (w.bit_start as usize) % (33 - bits.max(1));
             let data: Vec<u32> = (0..len).map(|i| w.a.wrapping_mul(i as u32 + 3) ^ w.b.rotate_left(i as u32)).collect();
             let enc: Vec<FheUint<Vec<u8>, u32>> = data.iter().map(|v| enc_word(*v, &mut xe, &mut xa, &mut scratch)).collect();
-            let mut retriever = GLWEBlindRetriever::alloc(&glwe_infos, len);
-            // two retrievals with the same object (the second one checks the reset)
+            // capacity >= number of inputs; two retrievals with the same object, the second one over a prefix of other length
+            let cap = len + ((w.aux >> 8) as usize % 12);
+            let mut retriever = GLWEBlindRetriever::alloc(&glwe_infos, cap);
             for round in 0..2u32 {
+                let len = if round == 0 { len } else { 1 + ((w.aux >> 16) as usize % len) };
+                let enc = &enc[..len];
                 let idx = ((w.k >> (8 * round)) as usize) % len;
                 let mask = ((1u64 << bits) - 1) as u32;
                 let kword = (w.k.rotate_left(7 * round) & !(mask.checked_shl(offset as u32).unwrap_or(0))) | ((idx as u32) << offset);
                 let mut kp: FheUintPrepared<DeviceBuf<B>, u32, B> = FheUintPrepared::alloc_from_infos(m, &ggsw_infos);
                 kp.encrypt_sk(m, kword, &c.sk_glwe, &ggsw_enc, &mut xe, &mut xa, scratch.borrow());
                 let mut res: FheUint<Vec<u8>, u32> = FheUint::alloc_from_infos(&glwe_infos);
-                retriever.retrieve(m, &mut res, &enc, &kp, offset, scratch.borrow());
+                retriever.retrieve(m, &mut res, enc, &kp, offset, scratch.borrow());
                 let got: u32 = res.decrypt(m, &c.sk_glwe, scratch.borrow());
                 if got != data[idx] {
                     return fail("wrong-result", format!("retrieval #{round} from {len} words with index {idx} (selector bits from {offset}): decrypts to {got:#010x}, expected {:#010x}", data[idx]));
                 }
             }
             cl.push(if len.is_power_of_two() { "length_power_of_two" } else { "length_not_power_of_two" });
+            cl.push(if cap >= 2 * len { "capacity>=2x_inputs" } else { "capacity<2x_inputs" });
         }
         5 | 6 => {
             // rotation by sign * (((k >> rsh) % 2^mask) << lsh), selector bits as prepared GGSWs of a more precise layout (as the shipped tests do)
@@ -239,6 +243,11 @@ where
                 let mut tv: ScalarZnx<Vec<u8>> = ScalarZnx::alloc(n, 1);
                 tv.raw_mut().copy_from_slice(&scalar);
                 let form = (w.aux >> 9) % 3;
+                // receiver (and source) layouts: the shipped one, or a digit decomposition of two limbs per row
+                // ((2, 2) would put the last gadget level at 2^-52, below the noise the 52-bit selector allows)
+                let (rd, rs) = [(2u32, 1u32), (1, 2), (1, 1), (1, 2)][((w.aux >> 12) % 4) as usize];
+                let ggsw_infos = GGSWLayout { n: ggsw_infos.n, base2k: ggsw_infos.base2k, k: TorusPrecision(13 * (rd * rs + 1)), rank: ggsw_infos.rank, dnum: Dnum(rd), dsize: Dsize(rs) };
+                let ggsw_enc = EncryptionLayout::new_from_default_sigma(ggsw_infos).unwrap();
                 let mut res: GGSW<Vec<u8>> = GGSW::alloc_from_infos(&ggsw_infos);
                 match form {
                     0 => <poulpy_hal::layouts::Module<B> as GGSWBlindRotation<u32, B>>::scalar_to_ggsw_blind_rotation(m, &mut res, &tv, &kp, sign, rsh, mask, lsh, scratch.borrow()),
@@ -259,18 +268,19 @@ where
                 for si in s.iter() {
                     pts.push(mul_small(&m2, si));
                 }
-                let (b, dnum, cols) = (13usize, ggsw_infos.dnum.0 as usize, s.len() + 1);
+                let (b, dnum, dsz, cols) = (13usize, ggsw_infos.dnum.0 as usize, ggsw_infos.dsize.0 as usize, s.len() + 1);
                 let cells: Vec<VecZnx<Vec<u8>>> = (0..dnum).flat_map(|row| (0..cols).map(move |col| (row, col))).map(|(row, col)| res.at(row, col).data().to_owned_deep()).collect();
-                let errs = cell_errors(&cells, b, dnum, 1, cols, s, &pts);
+                let errs = cell_errors(&cells, b, dnum, dsz, cols, s, &pts);
+                cl.push(if dsz > 1 { "dsize>1" } else { "dsize=1" });
                 for row in 0..dnum {
                     for col in 0..cols {
                         let (_, mx, at) = errs[row][col];
-                        let half_unit = p2(-(((row + 1) * b + 1) as i64));
+                        let half_unit = p2(-(((row + 1) * dsz * b + 1) as i64));
                         if std::env::var("PZV_DEBUG").is_ok() {
                             eprintln!("DEBUG ggsw_rot row {row} err/half_unit = 2^{:.2}", (mx / half_unit).log2());
                         }
                         if mx >= half_unit {
-                            return fail("cell-does-not-encrypt-the-value", format!("{} with rotation {rot}: cell (row {row}, column {col}) is off by {mx:.3e} (2^{:.1}) at coefficient {at}, half a unit of its gadget level is 2^-{}", ["scalar_to_ggsw_blind_rotation", "ggsw_blind_rotation", "ggsw_blind_rotation_assign"][form as usize], mx.log2(), (row + 1) * b + 1));
+                            return fail("cell-does-not-encrypt-the-value", format!("{} with rotation {rot}: cell (row {row}, column {col}) is off by {mx:.3e} (2^{:.1}) at coefficient {at}, half a unit of its gadget level is 2^-{} (dnum {dnum}, dsize {dsz})", ["scalar_to_ggsw_blind_rotation", "ggsw_blind_rotation", "ggsw_blind_rotation_assign"][form as usize], mx.log2(), (row + 1) * dsz * b + 1));
                         }
                     }
                 }
